@@ -295,6 +295,55 @@ func DrawWorld(t *rapid.T, focus string, pSafe int) (w *World) {
 		w.Svc = append(w.Svc, DrawSvc(t, SvcIDs[i], focus))
 	}
 
+	// The shape "the profile's own allow rule equals an allow rule of a shared
+	// list, and a safety filter matches the host" needs three things at once;
+	// it is constructed, not waited for.
+	ownAllow := rapid.IntRange(0, 6).Draw(t, "ownAllowShape") == 0
+	if ownAllow {
+		r := Rule{Kind: KAllow, D: rapid.SampledFrom(ancestors(focus)).Draw(t, "ownAllowD")}
+		if rapid.IntRange(0, 3).Draw(t, "ownAllowTyped") == 0 {
+			r.TypeMod = rapid.SampledFrom([]uint16{dns.TypeA, dns.TypeAAAA, dns.TypeHTTPS}).Draw(t, "ownAllowType")
+			r.TypeNeg = rapid.Bool().Draw(t, "ownAllowNeg")
+		}
+
+		if w.Custom == nil {
+			w.Custom = &List{ID: IDCustom}
+		}
+
+		// Rewrites of the rule lists would decide before any allow rule.
+		keep := func(l *List) {
+			var rs []Rule
+			for _, x := range l.Rules {
+				if !x.IsRewrite() {
+					rs = append(rs, x)
+				}
+			}
+
+			l.Rules = rs
+		}
+
+		keep(w.Custom)
+		w.Custom.Rules = dedupe(append(w.Custom.Rules, r))
+		for len(w.Shared) < 1 {
+			w.Shared = append(w.Shared, &List{ID: SharedIDs[len(w.Shared)]})
+		}
+
+		n := rapid.IntRange(1, min(2, len(w.Shared))).Draw(t, "ownAllowCopies")
+		first := rapid.IntRange(0, len(w.Shared)-n).Draw(t, "ownAllowFirst")
+		for _, l := range w.Shared {
+			keep(l)
+		}
+
+		for _, l := range w.Shared[first : first+n] {
+			// The equal rule goes first or last in the shared list.
+			if rapid.Bool().Draw(t, "ownAllowFront") {
+				l.Rules = dedupe(append([]Rule{r}, l.Rules...))
+			} else {
+				l.Rules = dedupe(append(l.Rules, r))
+			}
+		}
+	}
+
 	has := func(label string) bool { return rapid.IntRange(0, 99).Draw(t, label) < pSafe }
 	if has("hasDangerous") {
 		w.Dangerous = DrawHash(t, IDDangerous, focus)
@@ -314,6 +363,36 @@ func DrawWorld(t *rapid.T, focus string, pSafe int) (w *World) {
 
 	if has("hasNewReg") {
 		w.NewReg = DrawHash(t, IDNewReg, focus)
+	}
+
+	if ownAllow {
+		// Make sure that one safety filter matches the focus host.
+		h := func(id string) *Hash {
+			x := DrawHash(t, id, focus)
+			x.Hosts = []string{rapid.SampledFrom(ancestors(focus)).Draw(t, "ownAllowSafeHost")}
+
+			return x
+		}
+
+		ss := func(id string) *List {
+			l := DrawSafeSearch(t, id, focus)
+			l.Rules[0].D = focus
+
+			return l
+		}
+
+		switch rapid.IntRange(0, 4).Draw(t, "ownAllowSafety") {
+		case 0:
+			w.Dangerous = h(IDDangerous)
+		case 1:
+			w.Adult = h(IDAdult)
+		case 2:
+			w.GenSS = ss(IDGenSS)
+		case 3:
+			w.YTSS = ss(IDYTSS)
+		default:
+			w.NewReg = h(IDNewReg)
+		}
 	}
 
 	return w
